@@ -26,6 +26,9 @@ Histories  : every scenario is a call history that ends in a compared export(): 
              Design level: env = [mode, cached, weight version, snapshot version]; InvExportCurrent (export after k weight
              updates holds the weights of version k), InvFreshIsSummary whatever the autograd mode; expected-to-fail
              variants FwdImpl = "cache" (eval + no_grad forward skips the weight sampler) and ExpImpl = "memo".
+Two objects : history action fork: obj := deepcopy(obj), the original is perturbed (other coefficients, options, temperature,
+             forward passes), the history continues on the copy; every clause is evaluated on the copy (reference state =
+             state at the fork); loadT = load_state_dict of another temperature.  Sanity variant ForkImpl = "shared" fails.
 Conv options: padding_mode zeros / reflect / replicate / circular, dilation 1..2 (2-D too), stride 1..2, bias on/off, un-padded
              convs (random driver); InvExportGeom + clause C02.geometry (options of the exported layer read off the object).
 Tolerance  : none - bit-identical is torch.equal in float32 on CPU with one thread; precisions are integers.
@@ -66,7 +69,8 @@ def run(tier: str, seed: int, replay=None) -> int:
                     ("MPSLifeMC_all_quick", 240, 30, "allwinners"), ("MPSLifeMC_d1_quick", 150, 3, "arch1d"),
                     ("MPSLifeMC_reuse_quick", 90, 3, "reuse", "F66"), ("MPSLifeMC_opts_quick", 180, 3, "convopts"),
                     ("MPSLifeMC_opts1d_quick", 60, 3, "convopts1d"), ("MPSLifeMC_modes_quick", 100, 50, "modes"),
-                    ("MPSLifeMC_export_quick", 150, 50, "exports")] if q else
+                    ("MPSLifeMC_export_quick", 130, 50, "exports"),
+                    ("MPSLifeMC_fork_quick", 90, 30, "fork")] if q else
                    [("MPSLifeMC_arch_quick", 0, 0, "arch"), ("MPSLifeMC_arch_thorough", 2400, 3, "arch4"),
                     ("MPSLifeMC_arch5_thorough", 1200, 3, "arch5"), ("MPSLifeMC_tuples_thorough", 2000, 2, "tuples"),
                     ("MPSLifeMC_all_thorough", 2500, 40, "allwinners"), ("MPSLifeMC_few_thorough", 1200, 3, "few"),
@@ -74,8 +78,9 @@ def run(tier: str, seed: int, replay=None) -> int:
                     ("MPSLifeMC_reuse_thorough", 1500, 3, "reuse", "F66"), ("MPSLifeMC_reuse1d_thorough", 600, 3, "reuse1d", "F66"),
                     ("MPSLifeMC_opts_quick", 0, 0, "convopts"), ("MPSLifeMC_opts_thorough", 1500, 3, "convopts3"),
                     ("MPSLifeMC_opts1d_quick", 0, 0, "convopts1d"), ("MPSLifeMC_modes_thorough", 1500, 100, "modes"),
-                    ("MPSLifeMC_export_thorough", 2500, 150, "exports")]),
-        "sanity": ["MPSLifeMC_nokf40", "MPSLifeMC_noreuse", "MPSLifeMC_cachefwd", "MPSLifeMC_memoexport"],
+                    ("MPSLifeMC_export_thorough", 2500, 150, "exports"),
+                    ("MPSLifeMC_fork_thorough", 1200, 100, "fork")]),
+        "sanity": ["MPSLifeMC_nokf40", "MPSLifeMC_noreuse", "MPSLifeMC_cachefwd", "MPSLifeMC_memoexport", "MPSLifeMC_sharedfork"],
         "n_random": 50 if q else 600, "random_sels": 2 if q else 3, "max_nodes": 9 if q else 12,
         "procs": 8, "tlc_workers": 8,
     }
